@@ -71,7 +71,8 @@ impl DiskIO {
     // the O_DIRECT variant (unsafe pwrite on an aligned buffer): opaque
     #[verifier::external_body]
     pub fn write_retirement_extent_direct(&mut self, sector: u64, sectors: usize, scratch: &mut AlignedBuffer) -> (r: Result<()>)
-        ensures final(self)._use_direct_io == old(self)._use_direct_io,
+        ensures final(self)._use_direct_io == old(self)._use_direct_io, final(self).poisoned() == old(self).poisoned(),
+            final(self).log() == old(self).log().push(IoEvent::Direct),
     {
         unimplemented!()
     }
